@@ -2881,7 +2881,7 @@ class SparseLogicalVector:
         return self
     
     def _itruediv_scalar(self, other):
-        if not other and set: raise ZeroDivisionError('division by zero')
+        if not other and self.set: raise ZeroDivisionError('division by zero')
         return self
     
     def _itruediv_sparse(self, other):
